@@ -153,6 +153,29 @@ def stepC03 : Step
   | ["c05_txid_partial", h] => some (partialId (Hex.decode h))
   -- the same question asked of the library through a short-reading reader (one byte per `read` call): same answers expected
   | ["c05_txid_chunked", h] => some (partialId (Hex.decode h))
+  | ["c05_prefixhash", h] =>
+    let b := Hex.decode h
+    match prefix' b with
+    | some (p, []) =>
+      -- by the book: the prefix walked by the skipper must end exactly at the end of the bytes; its hash is the hash of the bytes
+      let s := match Spec.skipPrefix b with
+        | none => "skip-fail"
+        | some pe => if pe.rest.isEmpty then s!"ok {Hex.encode (K b)}" else s!"rest-left {pe.rest.length}"
+      some (s!"ok {Hex.encode (prefixHash K p)}", s)
+    | _ => some ("err", "-")
+  | "c05_id_noprun" :: rest =>
+    match txD rest with
+    | some (d, []) =>
+      match d.body with
+      | .v2 (some r) =>
+        if Spec.tyOf r == .Null then some ("bad-desc", "bad-desc") else
+        let t := build d
+        -- model: `Transaction::hash` on the struct with `p = None` (constant regenerated from the source);
+        -- spec side: the three-hash formula with the byte-reversed Keccak of the empty string as third component, over Spec/Wire bytes
+        some (Hex.encode (txHash K { t with prun := none }),
+              Hex.encode (K (K (Spec.specPrefix d) ++ K (Spec.specBase r) ++ (K []).reverse)))
+      | _ => some ("bad-desc", "bad-desc")
+    | _ => some ("bad-desc", "bad-desc")
   | "c03_enc" :: rest =>
     match txD rest with
     | some (d, []) =>
